@@ -85,11 +85,16 @@ def parse_event(ev):
 
 def run_prop(case):
     """('prop', NAME, s): Event.add(NAME, s) -> to_ical -> from_ical -> [NAME]"""
-    _, name, s = case
+    name, s = case[1], case[2]
     fails = []
     want = R.expected_decodes(s)
     ev = Event()
-    ev.add(name, s)
+    if case[0] == "prop-raw-str":      # a plain str / raw bytes stored by item assignment: TEXT all the same
+        ev[name] = s
+    elif case[0] == "prop-raw-bytes":
+        ev[name] = s.encode("utf-8")
+    else:
+        ev.add(name, s)
     data, back, evs = parse_event(ev)
     enc = vText(s).to_ical().decode("utf-8")
     line = f"{name}:{enc}"
@@ -230,6 +235,8 @@ def run_case(case):
     kind = case[0]
     if kind == "twice":
         return run_twice(case)
+    if kind in ("prop-raw-str", "prop-raw-bytes"):
+        return run_prop(case)
     if kind == "codec":
         return run_codec(case)
     if kind == "prop":
@@ -312,6 +319,11 @@ def run(ctx):
                 for sh in TWICE:
                     yield ("twice", n, sh, s)
 
+    def gen_raw():
+        for s_ in strings(CORE, 3):
+            for kind in ("prop-raw-str", "prop-raw-bytes"):
+                yield (kind, "SUMMARY", s_)
+
     def gen_names():
         # every TEXT-typed property name of RFC 5545 carries its value the same way (no name splits or trims on its own)
         for n in TEXT_NAMES:
@@ -339,6 +351,7 @@ def run(ctx):
     ctx.explore("escapes-on-every-fold-column", gen_long, run_case)
     ctx.explore("every-scalar-value-in-a-text-value", gen_all, run_block)
     ctx.explore("every-TEXT-property-name", gen_names, run_case)
+    ctx.explore("values-stored-as-plain-str-or-bytes", gen_raw, run_case)
     ctx.explore("repeated-property-with-empty-occurrences", gen_twice, run_case)
     if kc > k:
         ctx.explore("core-alphabet:deep-codec+summary", gen_deep, run_case)
